@@ -206,7 +206,14 @@ func (c *coord) runPhase(ph phase) {
 			defer wg.Done()
 			from := 0
 			for restarts := 0; from < ph.runs && restarts < 50; restarts++ {
-				cmd := c.workerCmd(ph, wid, from, ph.runs, deadline)
+				// A worker process handles one chunk of its run sequence and is then
+				// replaced by a fresh one: "what the process handled before" ranges from
+				// nothing to a thousand runs, again and again, instead of growing once
+				// (process-wide counters, caches with a few entries, warm-up effects).
+				to := c.chunkEnd(from, ph.runs)
+				phc := ph
+				phc.runs = to
+				cmd := c.workerCmd(ph, wid, from, to, deadline)
 				var stderr bytes.Buffer
 				cmd.Stderr = &stderr
 				stdout, _ := cmd.StdoutPipe()
@@ -254,6 +261,11 @@ func (c *coord) runPhase(ph phase) {
 					c.addInfra(fmt.Sprintf("watchdog: worker %d of phase %s did not finish in time (a run hangs without reaching a yield point, or the machine is overloaded)", wid, ph.name))
 					return
 				case code == 0:
+					if next >= to && to < ph.runs && time.Now().Before(deadline) {
+						from = to
+						restarts--
+						continue
+					}
 					return
 				case code == exitFatalRun && next > from:
 					from = next // the run in flight ended in a deadlock / step-cap verdict; carry on after it
@@ -263,10 +275,10 @@ func (c *coord) runPhase(ph phase) {
 				default:
 					// the process died (e.g. a Go runtime fatal error such as
 					// "concurrent map writes"): find the run that kills it
-					idx := c.findCrashingRun(ph, wid, from, deadline)
+					idx := c.findCrashingRun(phc, wid, from, deadline)
 					if idx < 0 {
 						// not alone: perhaps only after the runs before it
-						i, rf := c.crashAfterHistory(ph, wid, from)
+						i, rf := c.crashAfterHistory(phc, wid, from)
 						if rf != nil {
 							c.mu.Lock()
 							c.histCrashes = append(c.histCrashes, rf)
@@ -283,6 +295,25 @@ func (c *coord) runPhase(ph phase) {
 		}(wid)
 	}
 	wg.Wait()
+}
+
+// chunkEnd returns the end of the worker-process chunk that contains run `from`.
+// Chunk boundaries are absolute positions (the same for every worker and every
+// execution of the check), sizes cycle through short and long process lives.
+// C19's containers have no process-wide state: one process per worker.
+func (c *coord) chunkEnd(from, runs int) int {
+	if c.prop == "C19" {
+		return runs
+	}
+	sizes := []int{40, 200, 24, 1000, 120, 16, 600, 64}
+	b := 0
+	for i := 0; b <= from; i++ {
+		b += sizes[i%len(sizes)]
+	}
+	if b > runs {
+		b = runs
+	}
+	return b
 }
 
 // findCrashingRun re-executes the runs from `from` one process per run until
